@@ -243,6 +243,55 @@ def mutable_defaults(prog, modules):
     return out
 
 
+_MUTATORS = ("append", "extend", "insert", "add", "update", "clear", "pop", "popitem", "remove", "discard", "setdefault", "sort", "reverse", "appendleft", "__setitem__", "__delitem__")
+
+
+def shared_class_attributes(prog, modules):
+    """class-level names bound to a mutable display / constructor in a class body that some code of
+    the package changes *in place* through an attribute access (x.name.append(..), x.name[k] = v,
+    x.name += ..), while __init__ never rebinds self.name: one object shared by every instance of
+    the class (and by every thread).  -> [(class qualname, name, Site of the mutation, text)]"""
+    out = []
+    for short in modules:
+        m = prog.by_short.get(short)
+        if m is None:
+            continue
+        for cnode in [n for n in ast.walk(m.tree) if isinstance(n, ast.ClassDef)]:
+            shared = {}
+            for st in cnode.body:
+                tg = None
+                if isinstance(st, ast.Assign) and len(st.targets) == 1 and isinstance(st.targets[0], ast.Name):
+                    tg, v = st.targets[0].id, st.value
+                elif isinstance(st, ast.AnnAssign) and isinstance(st.target, ast.Name) and st.value is not None:
+                    tg, v = st.target.id, st.value
+                if tg and (isinstance(v, (ast.List, ast.Dict, ast.Set, ast.ListComp, ast.DictComp, ast.SetComp)) or (isinstance(v, ast.Call) and ast.unparse(v.func) in ("dict", "list", "set", "bytearray", "collections.defaultdict", "defaultdict", "OrderedDict", "collections.OrderedDict", "collections.deque", "deque", "Counter", "collections.Counter"))):
+                    shared[tg] = st
+            if not shared:
+                continue
+            rebound = set()
+            for fn in cnode.body:
+                if isinstance(fn, ast.FunctionDef) and fn.name in ("__init__", "__post_init__", "__new__"):
+                    for x in ast.walk(fn):
+                        if isinstance(x, (ast.Assign, ast.AnnAssign)):
+                            for t in (x.targets if isinstance(x, ast.Assign) else [x.target]):
+                                if isinstance(t, ast.Attribute) and isinstance(t.value, ast.Name) and t.attr in shared:
+                                    rebound.add(t.attr)
+            for name in sorted(set(shared) - rebound):
+                for x in ast.walk(m.tree):
+                    hit = None
+                    if isinstance(x, ast.Call) and isinstance(x.func, ast.Attribute) and x.func.attr in _MUTATORS and isinstance(x.func.value, ast.Attribute) and x.func.value.attr == name:
+                        hit = x
+                    elif isinstance(x, (ast.Assign, ast.AugAssign, ast.Delete)):
+                        for t in (x.targets if isinstance(x, (ast.Assign, ast.Delete)) else [x.target]):
+                            if isinstance(t, ast.Subscript) and isinstance(t.value, ast.Attribute) and t.value.attr == name:
+                                hit = x
+                            elif isinstance(x, ast.AugAssign) and isinstance(t, ast.Attribute) and t.attr == name:
+                                hit = x
+                    if hit is not None:
+                        out.append((cnode.name, name, prog.site(m, hit, m.short + "." + cnode.name), ast.unparse(hit)[:70]))
+    return out
+
+
 def module_mutables(prog, modules):
     """module-level names bound to mutable displays / constructor calls: (module, name, Site, kind)"""
     out = []
